@@ -124,6 +124,59 @@ static void deflate_layers(void)
 				}
 }
 
+/* window-edge layer: data with an exact repeat at distance 32768 everywhere (period-32768 noise) EXCEPT that the byte at the cut
+ * position differs from the byte one window earlier (00 / ff / a5 against noise). The stream is cut at 32767/32768/32769,
+ * 65535..65537 and 70001 with each flush kind on the first piece: whatever the codec keeps of its history between the calls,
+ * a match at distance exactly 32768 at the first byte of the second piece must be judged on the real history. */
+static void deflate_window_edge(void)
+{
+	static uint8_t *W;
+	static const int cpus[] = { CPU_BASE, CPU_SSE, CPU_AVX2, CPU_AVX512G2 };
+	static const int cuts[] = { 32767, 32768, 32769, 65535, 65536, 65537, 70001 };
+	static const uint8_t marks[] = { 0x00, 0xff, 0xa5 };
+	enum { WL = 75001 };
+	if (!W)
+		W = malloc(WL);
+	if (!DST) {
+		DST = g_persist(sizeof *DST, G_END);
+		DLB = g_persist(ISAL_DEF_LVL3_MIN, G_END);
+	}
+	uint64_t unit = 900000;
+	for (int level = 0; level <= 3; level++)
+		for (int ci = 0; ci < 4; ci++)
+			for (unsigned ki = 0; ki < 7; ki++)
+				for (int mi = 0; mi < 3; mi++)
+					for (int fl = 0; fl < 3; fl++) {
+						if (!v_mine(unit++))
+							continue;
+						if (nfail > 20 || v_deadline_hit())
+							return;
+						static uint8_t base[32768];
+						fill_xorshift(base, sizeof base, 4711);
+						for (int i = 0; i < WL; i++)
+							W[i] = base[i & 32767];
+						int cut = cuts[ki];
+						W[cut] = marks[mi];
+						if (W[cut - 32768 >= 0 ? cut - 32768 : 0] == marks[mi])
+							W[cut - 32768 >= 0 ? cut - 32768 : 0] ^= 0x5a;
+						DIN = W; DINLEN = WL; DLEVEL = level; DGZ = (ki + mi) & 1 ? IGZIP_GZIP : IGZIP_DEFLATE; DLBS = lvl_min[level];
+						cpu_set_level(cpus[ci]);
+						SE_CONTIG = (level + ci + fl) & 1;
+						g_strict_free = 1;
+						snprintf(ctxdesc, sizeof ctxdesc, "window-edge%s level=%d wrapper=%s cpu=%s period-32768 noise with %02x at the cut, cut=%d first-piece-flush=%s", SE_CONTIG ? "(contiguous input)" : "", level, gz_name[DGZ],
+							 cpu_level_name[cpus[ci]], marks[mi], cut, flush_name[fl]);
+						def_reset(4);
+						ex_depth = 0;
+						int r = def_call(cut, -1, fl, 0, NULL);
+						if (r == EX_NEXT)
+							r = def_finish_generously(NULL, 12);
+						g_strict_free = 0;
+						SE_CONTIG = 0;
+						v_count("window_edge_runs", 1);
+						v_eval();
+					}
+}
+
 int main(int argc, char **argv)
 {
 	v_init(argc, argv, "C07");
@@ -133,8 +186,10 @@ int main(int argc, char **argv)
 		inflate_part();
 	if (!v_part || !strcmp(v_part, "deflate"))
 		deflate_part();
-	if (!v_part || !strcmp(v_part, "deflate-layers"))
+	if (!v_part || !strcmp(v_part, "deflate-layers")) {
 		deflate_layers();
+		deflate_window_edge();
+	}
 	if (v_shard == 0) {
 		v_note("state = byte image of the caller-owned context (+ level buffer) and the harness cursor; key masks only regions the structure declares dead (tmp buffers beyond their valid counts); every transition is a real API call on fresh exact-size end-flush mappings, recycled mappings are PROT_NONE");
 		v_note("progress: from EVERY newly discovered state, generous calls (all remaining input, ample output, end_of_stream) must reach FINISH/ZSTATE_END within a fixed horizon with the correct result");
